@@ -223,6 +223,11 @@ def mechanical(ctx, P, s, N, fn, graph, operand, extra):
             if a0 == ("lit", "0"):
                 return True, "insertion at index 0 is within bounds for every length"
             return False, "Punctuated::insert at a non-constant index"
+        if s.callee in ("String::insert_str", "String::insert"):
+            a0 = N.term(node["args"][0])
+            if a0 == ("lit", "0"):
+                return True, "byte offset 0 is a char boundary of every string"
+            return False, "%s at a non-constant byte offset" % s.callee
         if s.callee in ("__private::parse", "__private::parse_quote"):
             return parse_quote_ok(ctx, N, node)
         if s.callee == "Rng::gen_range":
